@@ -515,6 +515,32 @@ pub fn small_docs() -> Vec<Vec<Stmt>> {
         d.push(Stmt::Slots(slots));
         docs.push(d);
     }
+    // boundary values of every numeric hole (full width of the field's type)
+    {
+        let t = Stmt::PrmText(65535, vec![(-2147483648, "min".into()), (4294967295, "max".into()), (0, "zero".into())]);
+        let e32 = Stmt::ExtPrm { id: 70000, name: "Wide".into(), ty: ("Unsigned32".into(), T::Unsigned32), default: 4294967295, constraint: Constraint::Range(0, 4294967295), text_ref: Some(65535), changeable: Some(false), visible: Some(false) };
+        let s32 = Stmt::ExtPrm { id: 4294967295, name: "Neg".into(), ty: ("Signed32".into(), T::Signed32), default: -2147483648, constraint: Constraint::Range(-2147483648, 2147483647), text_ref: None, changeable: None, visible: None };
+        let s16 = Stmt::ExtPrm { id: 256, name: "Set".into(), ty: ("Signed16".into(), T::Signed16), default: -1, constraint: Constraint::Set(vec![-32768, -1, 0, 32767]), text_ref: None, changeable: None, visible: None };
+        docs.push(vec![t.clone(), e32.clone(), s32.clone(), s16.clone(), Stmt::TopRef(243, 70000), Stmt::TopRef(0, 4294967295), Stmt::TopRef(100, 256), Stmt::TopConst(200, vec![0, 255, 128])]);
+        let m = Stmt::Module { name: "Big".into(), config: (0..=243u8).map(|i| i.wrapping_mul(7)).collect(), reference: Some(4294967295), prm_len: Some(255), refs: vec![(254, 70000)], consts: vec![(250, vec![1, 2, 3, 4])], info: Some("i".into()) };
+        docs.push(vec![t, e32, Stmt::Bool("Modular_Station", true), Stmt::Num("Max_Module", 255, false), m]);
+        docs.push(vec![Stmt::DiagBit(4294967295, "top".into()), Stmt::DiagNotBit(65536, "n".into()), Stmt::DiagArea(0, 65535, vec![(65535, "v".into()), (0, "z".into())])]);
+        docs.push(vec![Stmt::LegacyLen(255), Stmt::LegacyData((0..=254u8).collect())]);
+    }
+    // module references beyond one byte (slot references are 16 bit)
+    {
+        let mk = |name: &str, r: u32| Stmt::Module { name: name.into(), config: vec![r as u8], reference: Some(r), prm_len: None, refs: vec![], consts: vec![], info: None };
+        let pre = vec![Stmt::Bool("Modular_Station", true), Stmt::Num("Max_Module", 8, false), mk("M255", 255), mk("M256", 256), mk("M300", 300), mk("M65535", 65535)];
+        for slots in [
+            vec![(1u8, "Wide".to_string(), 300u16, Ok((255u16, 300u16)))],
+            vec![(2, "Set".into(), 65535, Err(vec![255u16, 256, 65535]))],
+            vec![(255, "Last".into(), 256, Ok((256, 256))), (0, "Zero".into(), 255, Err(vec![255u16]))],
+        ] {
+            let mut d = pre.clone();
+            d.push(Stmt::Slots(slots));
+            docs.push(d);
+        }
+    }
     for b in [0u32, 7, 31] {
         docs.push(vec![Stmt::DiagBit(b, "bit text".into()), Stmt::DiagBitHelp(b, "help text".into()), Stmt::DiagNotBit(b, "not text".into())]);
     }
